@@ -299,11 +299,14 @@ def c_side(ctx, gen_out, flow_files):
                 ops.append("creadpr le " + enc); inc("creadpr")
     # connectivity: every outbound x {tcp, udp, other} x ports x family
     goconn = {}
+    gowritten = {}
     for ff in flow_files:
         for line in read_lines(ff):
             w = line.split()
             if w[0] == "conn":
                 goconn[(int(w[1]), w[2], w[3], w[4])] = w[5]
+            elif w[0] == "connw":   # the slot the real write site (outboundAliveChangeCallback) wrote into a real map
+                gowritten[(int(w[1]), w[2], w[3], w[4])] = w[5]
     for ob in range(256):
         for l4 in (6, 17, 1, 58, 0, 255):
             if l4 not in (6, 17) and ob % 16:
@@ -314,6 +317,8 @@ def c_side(ctx, gen_out, flow_files):
                     if dport != 53:
                         want = goconn.get((ob, "udp" if l4 == 17 else "tcp", "4" if v4 else "6", "data" if l4 == 17 else "unset"))
                     cross.append((len(ops), "conn", want))
+                    if dport != 53 and gowritten:
+                        cross.append((len(ops), "conn-written", gowritten.get((ob, "udp" if l4 == 17 else "tcp", "4" if v4 else "6", "data" if l4 == 17 else "unset"))))
                     ops.append(f"cconn {ob} {l4} {dport} {v4}"); inc("cconn")
     for l4 in (6, 17, 1, 58, 0):
         for v6 in (0, 1):
@@ -361,10 +366,14 @@ def c_side(ctx, gen_out, flow_files):
             ok = got == want
         elif kind == "conn":
             ok = (got == "none") if want is None else (got == want)
+        elif kind == "conn-written":
+            ok = got == want
         if not ok:
             bad += 1
             if bad <= 5:
-                ctx.report(f"kernel and control plane compute different bytes for the same {kind}: C `{got[:200]}` Go `{str(want)[:200]}` ({ops[i][:160]})",
+                what = ("the slot wan_outbound_is_alive() reads differs from the slot outboundAliveChangeCallback wrote into the map"
+                        if kind == "conn-written" else f"kernel and control plane compute different bytes for the same {kind}")
+                ctx.report(f"{what}: C `{got[:200]}` Go `{str(want)[:200]}` ({ops[i][:160]})",
                            {"kind": kind, "c_op": ops[i], "c": got, "go": want})
     ctx.cov["cross_checked_entities"] = len(cross)
     ctx.samples += ["%s -> %s" % (ops[i][:120], impl[i][:200]) for i, _, _ in cross[:2] + cross[-2:] if i < len(impl)]
